@@ -24,7 +24,7 @@ def main(argv=None):
         with open(a.replay) as f:
             rec = json.load(f)
         case = core.unfloat(rec["case"] if "case" in rec and "site" in rec else rec)
-        out = core.replay_shard_exception(case) if case.get("kind") == "shard-exception" else mod.replay(case)
+        out = {"shard-exception": core.replay_shard_exception, "shard-replay": core.replay_shard}.get(case.get("kind"), mod.replay)(case)
         if out:
             for site, what in out:
                 print("VIOLATION property=%s replay=%s" % (pid, os.path.abspath(a.replay)))
